@@ -38,6 +38,11 @@ func c10Kind(d *Defs, f Field) string {
 		return "const"
 	}
 	k := d.defaultTag(f.Ty, *f.Default)
+	if _, _, ok := c10ConstDisj(f.Ty); ok {
+		// a constant and its own open type (`"utc" | string | *"browser"`): the Go chain collapses it
+		// into one scalar instead of generating a union struct
+		k = "samekind-union"
+	}
 	if f.Nullable {
 		k += "+nullable"
 	}
@@ -255,6 +260,61 @@ func c10Augment(d *Defs, idx int, seed uint64) c10Term {
 			root.Fields = append(root.Fields, Field{Name: name, Ty: srcOneOfScalars(alts...), Required: r.chance(60)})
 		}
 	}
+	// string constants with punctuation / non-ASCII letters (OpenAPI, and JSON Schema in the
+	// `pattern` spelling, declare them as `^literal$`)
+	literals := []string{"°C", "job=api", "a,b@c", "50%", "données", "hello world!", "x:y-z_w", "#tag", "mV~", "q&a"}
+	for k := 0; k < 1+r.intn(2); k++ {
+		name := fmt.Sprintf("zzUnit%d", k)
+		if !taken[strings.ToLower(name)] {
+			root.Fields = append(root.Fields, Field{Name: name, Ty: srcConst(jStr(literals[r.intn(len(literals))])), Required: r.chance(70)})
+		}
+	}
+	t.Pattern = idx%2 == 1
+	if idx%2 == 1 {
+		// a constant, its own open type, and a default of its own (CUE: `"utc" | string | *"browser"`)
+		for k := 0; k < 1+r.intn(2); k++ {
+			name := fmt.Sprintf("zzZone%d", k)
+			if taken[strings.ToLower(name)] {
+				continue
+			}
+			var alts []*Src
+			var dv JV
+			if r.chance(50) {
+				alts, dv = []*Src{srcConst(jStr("utc")), srcString()}, jStr([]string{"browser", "", "Europe/Paris"}[r.intn(3)])
+			} else {
+				alts, dv = []*Src{srcConst(jInt(0)), srcInt(64, true, nil, nil)}, jInt([]int64{3, -1, 60}[r.intn(3)])
+			}
+			if r.chance(50) {
+				alts[0], alts[1] = alts[1], alts[0]
+			}
+			root.Fields = append(root.Fields, Field{Name: name, Ty: srcOneOfScalars(alts...), Required: r.chance(50), Default: &dv})
+		}
+	}
+	if idx%4 == 3 && d.lookup("ZzSort") == nil && d.lookup("ZzLegend") == nil {
+		// one enum and one struct definition, each referred to several times with a different
+		// default at every reference; in CUE they live in an imported library that cog inlines
+		t.CueLib = true
+		members := []string{"asc", "desc", "none"}
+		d.Items = append(d.Items,
+			Def{"ZzSort", srcEnumS(members...)},
+			Def{"ZzLegend", srcStruct(
+				fld("placement", srcString(), false, false, jvp(jStr("bottom"))),
+				fld("showLegend", srcBool(), false, false, jvp(jBool(true))),
+				fld("width", srcInt(64, true, nil, nil), false, false, jvp(jInt(120))))})
+		places := []string{"right", "top", "left", ""}
+		for k := 0; k < 2+r.intn(2); k++ {
+			mv := jStr(members[(k+r.intn(2))%3])
+			root.Fields = append(root.Fields, Field{Name: fmt.Sprintf("zzSort%d", k), Ty: srcRef("ZzSort"), Required: r.chance(50), Default: &mv})
+			ov := jObj(kv("placement", jStr(places[r.intn(len(places))])))
+			if r.chance(50) {
+				ov.O = append(ov.O, JKV{"showLegend", jBool(false)})
+			}
+			if r.chance(30) {
+				ov.O = append(ov.O, JKV{"width", jInt(int64(r.intn(500)))})
+			}
+			root.Fields = append(root.Fields, Field{Name: fmt.Sprintf("zzLegend%d", k), Ty: srcRef("ZzLegend"), Required: r.chance(50), Default: &ov})
+		}
+	}
 	return t
 }
 
@@ -380,6 +440,8 @@ type c10Term struct {
 	Degrade int
 	Formats []string
 	// configured schema transformations (cog `passes:` file) the case is generated with
+	Pattern bool // JSON Schema: string constants spelled as `pattern: ^literal$`
+	CueLib  bool // CUE: definitions moved to an imported library, inlined (InlineExternalReference)
 	CDD    bool              // disjunction_with_constant_to_default: `"auto" | string` declares the default "auto"
 	Config map[string]string // fields_set_default: "Object.field" → JSON text of the default
 	Text    map[string]string // hand-written schema text per format (constructs the renderers do not print)
@@ -390,6 +452,10 @@ type c10Term struct {
 var c10Pinned = []c10Term{
 	{ID: "scalars", Degrade: 1, Src: `(defs "Root" ("Root" (struct (field "b" (bool) false false true) (field "bf" (bool) true false false) (field "i" (int 64 true - -) false false (n "-3")) (field "z" (int 64 true - -) false false (n "0")) (field "ir" (int 32 true - -) true false (n "7")) (field "f" (num 64 - -) false false (n "2.5")) (field "fi" (num 64 - -) true false (n "3")) (field "fl" (num 64 - -) false false (n "1000000")) (field "s" (string - - false) false false (s "hey")) (field "zs" (string - - false) false false (s "")) (field "sq" (string - - false) true false (s "a\"b\\c")) (field "c" (const (s "fixed")) true false -) (field "ci" (const (n "-47")) false false -))))`},
 	{ID: "const-int", Degrade: 1, Src: `(defs "Root" ("Root" (struct (field "cr" (const (n "75")) true false -) (field "co" (const (n "-47")) false false -) (field "cs" (const (s "fixed")) true false -))))`},
+	{ID: "const-punctuation", Degrade: 1, Pattern: true, Src: `(defs "Root" ("Root" (struct (field "u" (const (s "°C")) true false -) (field "j" (const (s "job=api")) true false -) (field "p" (const (s "a,b@c#d%e!")) false false -) (field "w" (const (s "données")) true false -) (field "sp" (const (s "hello world")) true false -) (field "m" (const (s "math")) true false -))))`},
+	{ID: "samekind-union-default", Degrade: 1, Formats: []string{"cue"}, Src: `(defs "Root" ("Root" (struct (field "tz" (oneOfScalars (const (s "utc")) (string - - false)) false false (s "browser")) (field "n" (oneOfScalars (const (n "0")) (int 64 true - -)) true false (n "3")) (field "tl" (oneOfScalars (string - - false) (const (s "utc"))) true false (s "x")))))`},
+	{ID: "imported-types-reused", Degrade: 1, Formats: []string{"cue"}, CueLib: true, Src: `(defs "Root" ("Root" (struct (field "sort" (ref "SortOrder") true false (s "asc")) (field "legend" (ref "LegendOptions") true false (o ("placement" (s "right")))) (field "tooltipSort" (ref "SortOrder") true false (s "desc")) (field "tooltipLegend" (ref "LegendOptions") false false (o ("placement" (s "top")) ("showLegend" false))) (field "thirdSort" (ref "SortOrder") false false (s "none")))) ("SortOrder" (enumS "asc" "desc" "none")) ("LegendOptions" (struct (field "placement" (string - - false) false false (s "bottom")) (field "showLegend" (bool) false false true) (field "width" (int 64 true - -) false false (n "120")))))`},
+	{ID: "negative-single-enum", Degrade: 1, Formats: []string{"cue"}, Src: `(defs "Root" ("Root" (struct (field "e" (ref "E") false false (n "-1")) (field "two" (ref "E2") false false (n "-2")))) ("E" (enumI -1)) ("E2" (enumI -1 -2)))`},
 	{ID: "constant-disjunction", Degrade: 1, CDD: true, Src: `(defs "Root" ("Root" (struct (field "mf" (oneOfScalars (const (s "auto")) (string - - false)) true false -) (field "ml" (oneOfScalars (string - - false) (const (s "auto"))) true false -) (field "nf" (oneOfScalars (const (n "30")) (int 64 true - -)) false false -) (field "nl" (oneOfScalars (int 64 true - -) (const (n "30"))) true false -) (field "bf" (oneOfScalars (const true) (bool)) false false -) (field "zf" (oneOfScalars (const (n "0")) (int 64 true - -)) false false -))))`},
 	{ID: "configured-defaults", Degrade: 1, Config: map[string]string{"Root.i": "42", "Root.s": `"cfg"`, "Root.b": "true", "Root.f": "1.5", "Root.z": "0", "Root.o": "7"},
 		Src: `(defs "Root" ("Root" (struct (field "i" (int 64 true - -) false false -) (field "s" (string - - false) true false -) (field "b" (bool) false false -) (field "f" (num 64 - -) false false -) (field "z" (int 64 true - -) false false -) (field "o" (int 64 true - -) false false (n "3")))))`},
@@ -483,7 +549,7 @@ func c10Stream(args map[string]string, out *bufio.Writer) error {
 				continue
 			}
 			lab.Opts.Degrade = t.Degrade
-			entries = append(entries, entry{t, c10AddCase(lab, d, f, c10PassesYAML(t))})
+			entries = append(entries, entry{t, c10AddCase(lab, d, f, c10CaseOpts{PassesYAML: c10PassesYAML(t), ConstAsPattern: t.Pattern, CueLibInline: t.CueLib})})
 		}
 	}
 	if err := lab.Build(); err != nil {
